@@ -101,8 +101,11 @@ def do_chunk(args):
     tokens_enabled, chunk = args
     acc = common.Acc()
     w = rt.vw(FL)
+    # errno as the caller left it before the call: 0, or an unrelated stale value (a failing call
+    # must store its own code either way)
+    pre = 0 if (len(chunk) + (chunk[0][2] or b"x")[-1]) % 2 else 2
     setup = [rt.obj_line(0, align=0, fill="r", seed=1), rt.obj_line(1, align=9, fill="f"),
-             "raobj 2 -1 0"]
+             "raobj 2 -1 0", "preerrno %d" % pre]
     lines = []
     for lab, p, s, e, sz in chunk:
         if e == "crypt_rn" and sz != "=":
@@ -163,8 +166,9 @@ def do_chunk(args):
             acc.count("swf/" + mname)
         acc.cls((cls, mname, e, mf or "method-refused", prev_kind))
         prev_kind = "failure"
+        acc.count("failures_pre_errno_%d" % pre)
         if err not in (rt.EINVAL, rt.ERANGE, rt.ENOMEM):
-            viol("errno", "errno %d is not EINVAL/ERANGE/ENOMEM" % err)
+            viol("errno", "errno %d is not EINVAL/ERANGE/ENOMEM (errno before the call was %d)" % (err, pre))
         # what the entry point must return
         if e in ("crypt_rn", "crypt_ra"):
             if rr != "N":
